@@ -121,14 +121,14 @@ impl<'a> SpecGen<'a> {
                 self.feat("array");
                 let mut items = if self.rng.chance(1, 2) { self.solid_ref().unwrap_or_else(|| self.primitive()) } else { self.schema(depth + 1) };
                 // a list of a nullable alias component (the alias must stay what the list holds)
-                if (self.names.len() + depth) % 3 == 0 { if let Some(a) = self.nullable_aliases.first().cloned() { items = r(&a); self.feat("array_of_nullable_alias"); } }
+                if (self.names.len() + depth) % 2 == 0 { if let Some(a) = self.nullable_aliases.first().cloned() { items = r(&a); self.feat("array_of_nullable_alias"); } }
                 json!({"type": "array", "items": items})
             }
             10 => { self.feat("inline_object"); self.object(depth + 1, false) }
             11 => {
                 self.feat("inline_map");
                 let mut v = if self.rng.chance(1, 3) { json!(true) } else { self.schema(depth + 1) };
-                if (self.names.len() + depth) % 3 == 1 { if let Some(a) = self.nullable_aliases.last().cloned() { v = r(&a); self.feat("map_of_nullable_alias"); } }
+                if (self.names.len() + depth) % 2 == 1 { if let Some(a) = self.nullable_aliases.first().cloned() { v = r(&a); self.feat("map_of_nullable_alias"); } }
                 json!({"type": "object", "additionalProperties": v})
             }
             12 => { self.feat("allof1"); let t = if self.rng.chance(1, 3) { self.any_ref() } else { self.object_ref_or_solid() }; match t {
@@ -206,7 +206,7 @@ impl<'a> SpecGen<'a> {
             }
             13 | 14 => { self.feat("primitive_component"); (self.primitive(), "prim") }
             15 => match { let earlier: Vec<String> = self.names.iter().zip(self.kinds.iter()).filter(|(_, k)| **k == "alias").map(|(n, _)| n.clone()).collect(); if !earlier.is_empty() && self.rng.chance(1, 2) { let n: String = self.rng.pick(&earlier[..]).clone(); self.feat("alias_of_alias"); Some(r(&n)) } else if self.rng.chance(1, 3) { let enums: Vec<String> = self.names.iter().zip(self.kinds.iter()).filter(|(_, k)| **k == "enum").map(|(n, _)| n.clone()).collect(); if enums.is_empty() { self.solid_ref() } else { let n: String = self.rng.pick(&enums[..]).clone(); self.feat("alias_of_enum"); Some(r(&n)) } } else { self.solid_ref() } } {
-                Some(t) => { self.feat("alias_component"); let mut a = json!({"allOf": [t]}); if self.rng.chance(1, 2) { a["nullable"] = json!(true); self.feat("nullable_alias"); self.nullable_aliases.push(name.to_string()); } (a, "alias") }
+                Some(t) => { self.feat("alias_component"); let mut a = json!({"allOf": [t]}); if self.rng.chance(1, 2) { a["nullable"] = json!(true); self.feat("nullable_alias"); if self.is_object_ref(&a["allOf"][0]) { self.nullable_aliases.insert(0, name.to_string()); self.feat("nullable_alias_of_a_model"); } else { self.nullable_aliases.push(name.to_string()); } } (a, "alias") }
                 None => (self.object(0, false), "object"),
             },
             16 | 17 => {
